@@ -1,17 +1,18 @@
-// Copyright 2013 The Go Authors. All rights reserved.
-// Use of this source code is governed by a BSD-style
-// license that can be found in the LICENSE file.
-
 package interp
 
-// Custom hashtable atop map.
-// For use when the key's equivalence relation is not consistent with ==.
-
-// The Go specification doesn't address the atomicity of map operations.
-// The FAQ states that an implementation is permitted to crash on
-// concurrent map access.
+// Ordered map used for every Go map in the interpreted program.
+//
+// Re-execution based path exploration needs determinism, so iteration is in
+// insertion order by default.  When the harness asks for it (svNondetMapOrder)
+// each range over a map with >=2 live entries picks the next entry through a
+// symbolic choice, which turns Go's randomised iteration order into a
+// quantified variable.
+//
+// Keys may be symbolic strings (symstr) or symbolic scalars: a lookup then
+// compares against the existing keys one by one and forks on the outcome.
 
 import (
+	"fmt"
 	"go/types"
 )
 
@@ -20,102 +21,207 @@ type hashable interface {
 	eq(t types.Type, x interface{}) bool
 }
 
-type entry struct {
-	key   hashable
-	value value
-	next  *entry
+type oent struct {
+	key value
+	val value
+	del bool
 }
 
-// A hashtable atop the built-in map.  Since each bucket contains
-// exactly one hash value, there's no need to perform hash-equality
-// tests when walking the linked list.  Rehashing is done by the
-// underlying map.
-type hashmap struct {
+type omap struct {
 	keyType types.Type
-	table   map[int]*entry
-	length  int // number of entries in map
+	ents    []*oent
+	idx     map[interface{}][]int // hash key -> entry indices
+	n       int
+	symKeys int // live entries whose key holds symbolic data
 }
 
-// makeMap returns an empty initialized map of key type kt,
-// preallocating space for reserve elements.
 func makeMap(kt types.Type, reserve int64) value {
-	if usesBuiltinMap(kt) {
-		return make(map[value]value, reserve)
-	}
-	return &hashmap{keyType: kt, table: make(map[int]*entry, reserve)}
+	return &omap{keyType: kt, idx: map[interface{}][]int{}}
 }
 
-// delete removes the association for key k, if any.
-func (m *hashmap) delete(k hashable) {
-	if m != nil {
-		hash := k.hash(m.keyType)
-		head := m.table[hash]
-		if head != nil {
-			if k.eq(m.keyType, head.key) {
-				m.table[hash] = head.next
-				m.length--
-				return
+// hasSym reports whether v contains symbolic data (shallow containers only).
+func hasSym(v value) bool {
+	switch v := v.(type) {
+	case sym, symstr:
+		return true
+	case structure:
+		for _, f := range v {
+			if hasSym(f) {
+				return true
 			}
-			prev := head
-			for e := head.next; e != nil; e = e.next {
-				if k.eq(m.keyType, e.key) {
-					prev.next = e.next
-					m.length--
-					return
-				}
-				prev = e
+		}
+	case array:
+		for _, f := range v {
+			if hasSym(f) {
+				return true
 			}
+		}
+	case iface:
+		return hasSym(v.v)
+	}
+	return false
+}
+
+func (m *omap) hkey(k value) interface{} {
+	switch k := k.(type) {
+	case hashable:
+		return k.hash(m.keyType)
+	case symstr, sym:
+		panic("hkey of symbolic key")
+	default:
+		return k
+	}
+}
+
+// find returns the index of the entry whose key equals k, or -1.
+func (m *omap) find(k value) int {
+	if m == nil {
+		return -1
+	}
+	ksym := hasSym(k)
+	if !ksym && m.symKeys == 0 {
+		for _, i := range m.idx[m.hkey(k)] {
+			e := m.ents[i]
+			if !e.del && equals(m.keyType, e.key, k) {
+				return i
+			}
+		}
+		return -1
+	}
+	// symbolic comparison against every live key, in insertion order
+	for i, e := range m.ents {
+		if e.del {
+			continue
+		}
+		if !ksym && !hasSym(e.key) {
+			if equals(m.keyType, e.key, k) {
+				return i
+			}
+			continue
+		}
+		if equals(m.keyType, e.key, k) { // forks
+			return i
+		}
+	}
+	return -1
+}
+
+func (m *omap) lookup(k value) (value, bool) {
+	if i := m.find(k); i >= 0 {
+		return m.ents[i].val, true
+	}
+	return nil, false
+}
+
+func (m *omap) insert(k, v value) {
+	if m == nil {
+		panic(targetPanic{iface{nil, "assignment to entry in nil map"}})
+	}
+	if i := m.find(k); i >= 0 {
+		m.ents[i].val = v
+		return
+	}
+	m.ents = append(m.ents, &oent{key: k, val: v})
+	if hasSym(k) {
+		m.symKeys++
+	} else {
+		h := m.hkey(k)
+		m.idx[h] = append(m.idx[h], len(m.ents)-1)
+	}
+	m.n++
+}
+
+func (m *omap) delete(k value) {
+	if m == nil {
+		return
+	}
+	if i := m.find(k); i >= 0 {
+		e := m.ents[i]
+		e.del = true
+		m.n--
+		if hasSym(e.key) {
+			m.symKeys--
 		}
 	}
 }
 
-// lookup returns the value associated with key k, if present, or
-// value(nil) otherwise.
-func (m *hashmap) lookup(k hashable) value {
-	if m != nil {
-		hash := k.hash(m.keyType)
-		for e := m.table[hash]; e != nil; e = e.next {
-			if k.eq(m.keyType, e.key) {
-				return e.value
+func (m *omap) len() int {
+	if m == nil {
+		return 0
+	}
+	return m.n
+}
+
+func (m *omap) clear() {
+	if m == nil {
+		return
+	}
+	m.ents = nil
+	m.idx = map[interface{}][]int{}
+	m.n = 0
+	m.symKeys = 0
+}
+
+// live returns the live entries in insertion order.
+func (m *omap) live() []*oent {
+	if m == nil {
+		return nil
+	}
+	r := make([]*oent, 0, m.n)
+	for _, e := range m.ents {
+		if !e.del {
+			r = append(r, e)
+		}
+	}
+	return r
+}
+
+type omapIter struct {
+	m    *omap
+	pos  int
+	rest []*oent // nondeterministic mode: entries not yet visited
+	nd   bool
+}
+
+func newMapIter(m *omap) *omapIter {
+	it := &omapIter{m: m}
+	if ex != nil && ex.nondetMap && m.len() >= 2 {
+		it.nd = true
+		it.rest = m.live()
+	}
+	return it
+}
+
+func (it *omapIter) next() tuple {
+	if it.nd {
+		// drop entries deleted meanwhile
+		j := 0
+		for _, e := range it.rest {
+			if !e.del {
+				it.rest[j] = e
+				j++
+			}
+		}
+		it.rest = it.rest[:j]
+		if len(it.rest) == 0 {
+			return tuple{false, nil, nil}
+		}
+		k := 0
+		if len(it.rest) > 1 {
+			k = ex.choose(fmt.Sprintf("maporder%d", len(it.rest)), len(it.rest))
+		}
+		e := it.rest[k]
+		it.rest = append(it.rest[:k:k], it.rest[k+1:]...)
+		return tuple{true, e.key, e.val}
+	}
+	if it.m != nil {
+		for it.pos < len(it.m.ents) {
+			e := it.m.ents[it.pos]
+			it.pos++
+			if !e.del {
+				return tuple{true, e.key, e.val}
 			}
 		}
 	}
-	return nil
-}
-
-// insert updates the map to associate key k with value v.  If there
-// was already an association for an eq() (though not necessarily ==)
-// k, the previous key remains in the map and its associated value is
-// updated.
-func (m *hashmap) insert(k hashable, v value) {
-	hash := k.hash(m.keyType)
-	head := m.table[hash]
-	for e := head; e != nil; e = e.next {
-		if k.eq(m.keyType, e.key) {
-			e.value = v
-			return
-		}
-	}
-	m.table[hash] = &entry{
-		key:   k,
-		value: v,
-		next:  head,
-	}
-	m.length++
-}
-
-// len returns the number of key/value associations in the map.
-func (m *hashmap) len() int {
-	if m != nil {
-		return m.length
-	}
-	return 0
-}
-
-// entries returns a rangeable map of entries.
-func (m *hashmap) entries() map[int]*entry {
-	if m != nil {
-		return m.table
-	}
-	return nil
+	return tuple{false, nil, nil}
 }
